@@ -222,7 +222,7 @@ func runXtplCase(r *Rng, out *outFiles, work string, idx int) {
 		kws = []xKw{{"ctr", 2, 1, 0}, {"nctr", 3, 1, 2}, {"tr", 0, 1, 0}, {"rev", 0, 2, 1}}
 		kwSpec = "ctr:2c,1;nctr:3c,1,2;tr;rev:2,1"
 	}
-	ap := r.Pick([]string{":", ":", "v-", "th:"})
+	ap := r.Pick([]string{":", ":", "v-", "th:", "ui:", "wire:"})
 	nfiles := 1 + r.Intn(3)
 	dir := filepath.Join(work, fmt.Sprintf("x%d", idx))
 	os.RemoveAll(dir)
